@@ -250,7 +250,7 @@ static void step(hist_t *h, rng_t *r, int thorough)
 		int mode = rndn(r, 4);
 		if (mode <= 1) mtbl_merger_options_set_merge_func(mo, ms_fail_or_merge, mc);
 		if (mode == 1 && h->universe.n) { const ent_t *e = &h->universe.e[rndn(r, h->universe.n)]; mc->have_fail = 1; mc->fail_key = e->k.p; mc->fail_len = e->k.n; life("life.merger.failing_merge_callback"); }
-		if (mode == 2) mtbl_merger_options_set_dupsort_func(mo, dupsort_bytes, NULL);
+		if (mode == 2) mtbl_merger_options_set_dupsort_func(mo, dupsort_bytes, DUPSORT_CLOS);
 		struct mtbl_merger *m = mtbl_merger_init(mo);
 		mtbl_merger_options_destroy(&mo);
 		int i = obj_new(h, T_MERGER, m);
